@@ -85,6 +85,7 @@ pub const HARNESSES: &[(&str, fn())] = &[
     ("c07_spawn_abort_join", c07_done::c07_spawn_abort_join),
     ("c01_settle_quiescent_a", c01_quiescence::c01_settle_quiescent_a),
     ("c01_settle_quiescent_b", c01_quiescence::c01_settle_quiescent_b),
+    ("c01_settle_quiescent_c", c01_quiescence::c01_settle_quiescent_c),
     ("c01_stream_handover", c01_quiescence::c01_stream_handover),
     ("c01_run_all_quiescent", c01_quiescence::c01_run_all_quiescent),
     ("c05_hosting_a", c05_hosting::c05_hosting_a),
